@@ -22,7 +22,7 @@ vars == <<ns, ret, phase>>
 IsDecor(n) == n.k \in Leaves \/ (n.k \in Okl /\ n.h # DefaultHdr)
 Decor(s, r) == Cardinality({i \in 1..Len(s) : IsDecor(s[i])}) + (IF r = "void" THEN 0 ELSE 1)
 
-HdrChoices(k) == IF k \in Okl THEN GoodH \cup BadH ELSE {"-"}
+HdrChoices(k) == IF k \in Okl THEN GoodH \cup BadH ELSE IF k \in Tiles THEN {"lt"} ELSE {"-"}
 
 Init == /\ ns = <<>>
         /\ ret \in RetTypes
@@ -49,7 +49,7 @@ AddNode(k, d, h) ==
 
 Finish ==
   /\ phase = "build"
-  /\ UsesOK(ns)
+  /\ Generated(ns)
   /\ phase' = "done"
   /\ UNCHANGED <<ns, ret>>
 
@@ -66,15 +66,19 @@ TypeOK == /\ phase \in {"build", "done"}
 
 \* sanity theorems about the rule definitions (checked on every reachable structure)
 RuleSanity ==
+  LET e == Expand(ns) IN
   \* a valid kernel has both kinds of loops, every @inner below an @outer, nothing below an
-  \* @inner is an @outer
-  /\ Valid(ns, ret) => /\ \E i \in Idx(ns) : ns[i].k = "fo"
-                       /\ \E i \in Idx(ns) : ns[i].k = "fi"
-                       /\ \A i \in Idx(ns) : ns[i].k = "fi" => HasAnc(ns, i, "fo")
-                       /\ \A i \in Idx(ns) : ns[i].k = "fo" => ~HasAnc(ns, i, "fi")
-                       /\ \A i \in Idx(ns) : ns[i].k \in Decls => RightPlace(ns, i)
+  \* @inner is an @outer (on the expansion of @tile loops)
+  /\ Valid(ns, ret) => /\ \E i \in Idx(e) : e[i].k = "fo"
+                       /\ \E i \in Idx(e) : e[i].k = "fi"
+                       /\ \A i \in Idx(e) : e[i].k = "fi" => HasAnc(e, i, "fo")
+                       /\ \A i \in Idx(e) : e[i].k = "fo" => ~HasAnc(e, i, "fi")
+                       /\ \A i \in Idx(e) : e[i].k \in Decls => RightPlace(e, i)
   \* every inner-most OKL loop of a valid kernel is an @inner loop
-  /\ Valid(ns, ret) => \A i \in Idx(ns) : OklLeaf(ns, i) => ns[i].k = "fi"
+  /\ Valid(ns, ret) => \A i \in Idx(e) : OklLeaf(e, i) => e[i].k = "fi"
+  \* the expansion is a well-formed structure without @tile nodes, one node longer per tile
+  /\ WellFormed(e) /\ \A i \in Idx(e) : e[i].k \notin Tiles
+  /\ Len(e) = Len(ns) + Cardinality({i \in Idx(ns) : ns[i].k \in Tiles})
   \* brackets of the rendering are balanced
   /\ phase = "done" =>
      LET t == Tokens(ns, ret)
